@@ -178,8 +178,8 @@ def both(res, work, tier):
     return ownership_view(res, work, tier)
 
 
-def D(name, hosts, prefixes, t):
-    return {"op": "deploy", "name": name, "hosts": hosts, "prefixes": prefixes, "tls": False, "tls_redirect": False, "strip": True,
+def D(name, hosts, prefixes, t, strip=True):
+    return {"op": "deploy", "name": name, "hosts": hosts, "prefixes": prefixes, "tls": False, "tls_redirect": False, "strip": strip,
             "cert": "none", "pages": "none", "topts": 0, "targets": [{"name": t, "healthy": True}]}
 
 
@@ -198,6 +198,16 @@ def directed():
         out.append([D(b"web", [h], [first], b"ta:80"), D(b"api", [h], [second], b"tb:80"), {"op": "remove", "name": b"web"},
                     D(b"docs", [h], [second], b"tc:80"), D(b"docs", [h], [first], b"td:80"), {"op": "remove", "name": b"api"},
                     D(b"web", [h], [second], b"te:80")])
+    # nested prefixes of one service are each owned; wildcard and default hosts are owned like any other
+    for st in (True, False):
+        out.append([D(b"web", [h], [b"/api", b"/api/v2"], b"ta:80", st), D(b"api", [h], [b"/api/v2"], b"tb:80", st),
+                    D(b"api", [h], [b"/api/v2/x"], b"tc:80", st), D(b"docs", [h], [b"/api"], b"td:80", st),
+                    D(b"web", [h], [b"/api"], b"te:80", st), D(b"docs", [h], [b"/api/v2"], b"tf:80", st)])
+        out.append([D(b"web", [], [b"/", b"/admin"], b"ta:80", st), D(b"api", [], [b"/admin"], b"tb:80", st),
+                    D(b"api", [], [b"/admin/x"], b"tc:80", st)])
+    for wh in ([b"*.example.com"], [b"*.example.com", h], []):
+        out.append([D(b"web", wh, [b"/"], b"ta:80"), D(b"api", wh[:1], [b"/"], b"tb:80"), D(b"api", wh[:1], [b"/api"], b"tc:80"),
+                    D(b"web", [g], [b"/"], b"td:80"), D(b"docs", wh[:1], [b"/"], b"te:80"), D(b"web", wh[:1], [b"/"], b"tf:80")])
     out.append([D(b"web", [h, g], [b"/"], b"ta:80"), D(b"api", [g], [b"/api"], b"tb:80"), {"op": "remove", "name": b"web"},
                 D(b"docs", [g], [b"/api"], b"tc:80"), D(b"docs", [h], [b"/"], b"td:80"), D(b"docs", [g], [b"/"], b"te:80")])
     return out
